@@ -5,7 +5,7 @@ Oracle for the collector's decision timing and memory ejection (C03, C07).
 case args: tt=<ns> sd=<ns> limit=<n> max=<n> workers=<n>
 ops (see harness/cmd/deadline/main.go):
   adv <ns>
-  span <tid> <root> <bytes> <age>     ext: w = <worker>, size = <GetDataSize>
+  span <tid> <root> <bytes> <age> [<kind 0 span|1 span event|2 link>]   ext: w = <worker>, size = <GetDataSize>
         obs: buf sb=<SendBy> n=<count> sz=<DataSize> root=<0|1>   |   late reason=<send reason>
   tick <w>                            ext: taken = <ids in the order they reached the transmission>
         obs: at=<now> sent=<id:reason:spans,…> left=<buffered ids>
@@ -78,6 +78,14 @@ def sentStr (l : List Sent) : String :=
 def setAt {α : Type} (l : List α) (i : Nat) (x : α) : List α :=
   (l.zipIdx).map fun (y, j) => if j = i then x else y
 
+/-- optional last token of a `span` op: 0 plain span (default), 1 span event, 2 span link -/
+def parseKind : List String → Option Kind
+  | [] => some .plain
+  | ["0"] => some .plain
+  | ["1"] => some .spanEvent
+  | ["2"] => some .link
+  | _ => none
+
 structure OSt where
   ws : List St
 
@@ -92,19 +100,19 @@ def oStep (o : OSt) (op : List String) (exts : List (List String)) : OSt × Opti
     match d.toNat? with
     | some d => ({ ws := o.ws.map fun s => (step s (.adv d)).1 }, none)
     | none => (o, some "bad-op")
-  | ["span", id, root, _bytes, _age] =>
-    match id.toNat?, extNat exts ["w"], extNat exts ["size"] with
-    | some id, some w, some size =>
+  | "span" :: id :: root :: _bytes :: _age :: kindTok =>
+    match id.toNat?, extNat exts ["w"], extNat exts ["size"], parseKind kindTok with
+    | some id, some w, some size, some kind =>
       match o.ws[w]? with
       | some s =>
-        let (s', out) := step s (.span id (root == "1") size)
+        let (s', out) := step s (.span id (root == "1") size kind)
         let str := match out with
           | .buffered sbv n sz r => s!"buf sb={sbv} n={n} sz={sz} root={if r then 1 else 0}"
           | .late => s!"late reason={Gen.Deadline.reasonLateSpan}"
           | _ => "unexpected"
         ({ ws := setAt o.ws w s' }, some str)
       | none => (o, some "bad-worker")
-    | _, _, _ => (o, some "bad-op")
+    | _, _, _, _ => (o, some "bad-op")
   | ["tick", w] =>
     match w.toNat?, extIds exts ["taken"] with
     | some w, some taken =>
@@ -313,7 +321,7 @@ def parseEvict : List String → List (Nat × String × String)
 def dMon (m : MSt) (op : List String) (exts : List (List String)) (obs : Option String) : MSt × List Fail :=
   match op, obs with
   | ["adv", d], _ => ({ m with now := m.now + (d.toNat?.getD 0 : Nat) }, [])
-  | ["span", id, root, _, _], some o =>
+  | "span" :: id :: root :: _ :: _ :: _, some o =>
     match id.toNat?, extNat exts ["w"], extNat exts ["size"] with
     | some id, some w, some size =>
       let toks := o.splitOn " "
